@@ -126,7 +126,9 @@ CLAIMS["C10"] = dict(
          "FIXED_AT_LEAST_ONE_FILE iff fixed and no failure (C18); in scan / scan-stdin mode nothing is ever written and the stdin spool is "
          "removed on every exit; no temporary file survives any exit of the fix pass (all 313 paths, exceptions included); structurally, every "
          "file-system write site of pymarkdown/ is in a function reachable only under `if in_fix_mode`, or is the proved stdin spool, the log "
-         "handler or the API's fix_string.",
+         "handler or the API's fix_string; through the API a fix run that ended with either success code (0 or 3: under the minimal scheme a "
+         "run that fixed files ends with 0) hands back exactly the list the 'Fixed:' announcements were collected in, any other code raises "
+         "(PyMarkdownApi.__handle_fix_results; seeded change C10-C).",
     note=TB + "Known finding D8 (a level already written back is neither announced nor restored when a later level fails). Assumed: the token "
               "pass __process_file_fix_tokens creates only the temporary file it returns; a fix record implies the bytes differ (a rule may "
               "record a no-op fix); 'a file whose scan is clean is left byte-identical' rests on the rules (C09) and fails for failures "
